@@ -15,8 +15,17 @@ CONF = dict(
  'peer_clock_cutoff / sync_timeout / sync_interval (present or omitted, sane values, 0, -0, NaN, +-Inf, sub-nanosecond and beyond-int64 values) written to a '
  'configuration file and passed through the real loadConfig, clockDrift and syncConfig of timeservice.go (the real service binary built with -tags verif, hook '
  'timeservice_verif.go, one process per case); every configuration the service accepts is then run by the real sync.Run with the real SystemClock.Drift (family '
- 'config of sync.run). All sync.config cases count as non-trivial. distinct = distinct (kind, input)'),
-    assumptions=['float64 arithmetic of Go on amd64 = IEEE-754 binary64 round-to-nearest-even without FMA contraction (Flocq BinarySingleNaN); int64(float64) = CVTTSD2SI '
+ 'config of sync.run). All sync.config cases count as non-trivial. Further families of sync.run: deadline ties (up to three sources per scenario answer exactly at '
+ 'the deadline, delay = timeout: either outcome is accepted - the checker enumerates the resolutions, verdict relational), SyncTimeout = 0 (every immediate '
+ 'answer and the local clock are ties: only the clauses that hold for every offset are judged), 9..16 sources per side. sync.extreme: the fixed wrap witness and a '
+ 'family of both-side configurations with the peer cap in [2^62, 2^63) ns whose midpoint cannot wrap (one sign per round, all timely), judged with the bound at full '
+ 'strength. sync.wiring: go/ast check of runServer, runClient and createClocks of timeservice.go (one case per function, the observation is the list of broken '
+ 'rules). sync.clocks: generated configurations (0-3 NTP servers over IP or SCION, MBG/PHC/SHM reference clocks, 0-3 SCION peers) through the real loadConfig, '
+ 'localAddress and createClocks (hook timeservice_wiring_verif.go): configured servers are the reference clocks, configured peers the peer clocks, nothing else. '
+ 'sync.sleep: the real SystemClock.Sleep for 0, 1, 10, 100 ms, random durations and negative ones, elapsed time on the monotonic clock. sync.build: the service '
+ 'builds with -tags verif. distinct = distinct (kind, input)'),
+    assumptions=['SystemClock.Sleep is judged on the monotonic clock with a tolerance of d/1000 + 50 us below d (CLOCK_REALTIME against CLOCK_MONOTONIC) and 10 s above (loaded machine)',
+ 'float64 arithmetic of Go on amd64 = IEEE-754 binary64 round-to-nearest-even without FMA contraction (Flocq BinarySingleNaN); int64(float64) = CVTTSD2SI '
  '(-2^63 when out of range); float64(int64) correctly rounded',
  'NaN and infinite impact factors are inside the quantifier: the oracle demands that Run refuses every NaN factor (since /repo 6abb997 the code tests !(x > y)); the only non-finite setting Run admits is a peer factor +Inf (peer cap +Inf)',
  'the clause "both sides contribute => correction within the peer cap" needs the peer cap below 2^62 ns (146 years of allowed correction per round); '
@@ -25,7 +34,8 @@ CONF = dict(
  'slices.SortFunc returns a sorted permutation (the order of equal offsets is irrelevant: only offsets are used by Run)',
  'goroutine scheduling inside a round is irrelevant to the offsets a round sees (the multiset of timely answers is what collectMeasurements stores); runs with '
  'SyncTimeout = 0 and an immediately answering source are a genuine race of the implementation (both select cases ready) and are not generated'],
-    trusted=['Flocq 4 (IEEE754.BinarySingleNaN/Binary/Bits) as the float64 semantics; the theorems depend on the four standard-library axioms Flocq/Reals use',
+    trusted=['SYNTACTIC TIE (not executed): that runServer / runClient hand clockDrift(cfg), syncConfig(cfg) and the two lists of createClocks, unmodified and in this order, to the one `go sync.Run` call and register the same clock is established by a go/ast check of timeservice.go (harness/cmd/c01/wiring.go, kind sync.wiring), not by running these functions (they start listeners and discipline the machine clock)',
+ 'Flocq 4 (IEEE754.BinarySingleNaN/Binary/Bits) as the float64 semantics; the theorems depend on the four standard-library axioms Flocq/Reals use',
  'testing/synctest virtual time (GOEXPERIMENT=synctest), runtime.Goexit to end Run after the scripted rounds, prometheus.DefaultRegisterer swapped per scenario',
  'modelled, not verified: time.Duration.Abs / Seconds, context.WithTimeout, channel and select semantics of collectMeasurements, slices.SortFunc'],
     technique=('Coq proofs over a Gallina model of sync.Run: Flocq lemmas (exact products with +-1, truncation, monotone rounding, comparison totality, overflow cases of the cap) '
@@ -39,7 +49,7 @@ CONF = dict(
  '(float64 comparison; integer inequality |c| <= floor(RN(factor x D)) below 2^53 ns). The model is tied to the Go code by comparing the complete event sequence '
  'of every scenario; the property oracle C01_ok (independent of the model of Run) and the drift oracle (Drift = drift x interval up to 2^-48 relative + 1 ns) are '
  "evaluated on the implementation's observations"),
-    level_note=('Trusted: Coq kernel, Flocq as float semantics, hand-written model validated by the correspondence run, extraction, harness, synctest. SystemClock.Drift is now '
+    level_note=('Rounds with failed / late / missing sources: the oracle judges the bound and, from the answers it has seen (not from the model of the slices), the clause that peers which were never beyond the cutoff contribute nothing (C01_stale_peers_within_cutoff); the exact value there is the model comparison\'s business. History theorem with the full case analysis: C01_history_case_analysis. Configuration values: C01_config_seconds_to_ns (seconds x 1e9 within 1 ns + 2^-52). ' 'Trusted: Coq kernel, Flocq as float semantics, hand-written model validated by the correspondence run, extraction, harness, synctest. SystemClock.Drift is now '
  'proved close to drift x interval (C01_drift_close: the model satisfies the drift oracle for every int64 drift and interval; C01_drift_within_1ns_2p50: 1 ns + 2^-50 '
  'relative; C01_bound_vs_exact_product: a correction that passes the comparison against factor x Drift(interval) is at most factor x drift x interval x (1 + 2^-49) in '
  'exact arithmetic) over the whole oracle range 0 < drift, 0 < interval, drift x interval < 2^62 ns. Rounds in which a source failed are checked by the oracle for '
